@@ -21,11 +21,12 @@
   initial counters `cx.init = (byte, line, column)`.  Every theorem quantifies over all of
   that and over every input `cx.inp` and every `k ≤ size` (the very end included).
 
-  Result.  The property holds exactly when the input was constructed with initial byte
-  counter 0 (any initial line) and, for `begin_of_line`/`line_at` on the first line, initial
-  column 1.  For other initial counters it is FALSE of the code (known finding F10):
-  `C19_at_general` / `C19_bol_general` give the value the code computes,
-  `C19_initial_counters_witness` and `C19_initial_column_witness` are concrete failures.
+  Result.  With the repaired `at()` (`begin() + ( p.byte - begin_byte() )`, fix F19: the old
+  `begin() + p.byte` pointed outside the data for every input whose byte counter does not start at
+  0 — the inner input of every `rematch`, for one) the property holds for every initial byte and
+  line counter; `begin_of_line`/`line_at` on the first line additionally need initial column 1,
+  otherwise it is FALSE of the code (known finding F10, column part): `C19_bol_general` gives the
+  value the code computes, `C19_initial_column_witness` is a concrete failure.
   Under `eol::cr_crlf` an eager input that consumed CR LF with `eol` reports column 1 where
   a scan reports 2 (known finding F11 of C06), so `begin_of_line` of the eager and of the
   lazy input differ by one: `C19_crCrlf_eager_witness`.
@@ -48,88 +49,82 @@ def exEager : Ctx :=
 
 /-! ### `at` -/
 
-/-- What `at( p )` computes for any initial counters: the offset plus the initial byte counter. -/
-theorem C19_at_general (cx : Ctx) (k : Nat) :
-    atOff (posBump cx k) = (cx.init.pos : Int) + k :=
-  at_posBump cx k
-
-example : atOff (posBump { exLazy with init := ⟨10, 7, 1⟩ } 4) = 14 := by
-  rw [C19_at_general]; rfl
-
-/-- With initial byte counter 0 (any initial line and column, eager or lazy, any policy)
-    `at( p )` points to byte `k` of the data and lies inside `[begin, end]`. -/
-theorem C19_at (cx : Ctx) (k : Nat) (hk : k ≤ cx.inp.size) (h0 : cx.init.pos = 0) :
-    atOff (posBump cx k) = k ∧ 0 ≤ atOff (posBump cx k) ∧ atOff (posBump cx k) ≤ cx.inp.size := by
-  rw [at_posBump, h0]; omega
+/-- For any initial counters (byte, line, column), eager or lazy, any policy: `at( p )` points to byte `k` of the
+    data and lies inside `[begin, end]`. -/
+theorem C19_at (cx : Ctx) (k : Nat) (hk : k ≤ cx.inp.size) :
+    atOff cx (posBump cx k) = k ∧ 0 ≤ atOff cx (posBump cx k) ∧ atOff cx (posBump cx k) ≤ cx.inp.size := by
+  rw [at_posBump]; omega
 
 example : posBump exLazy 4 = ⟨4, 8, 2⟩ := by decide
-example : atOff (posBump exLazy 4) = 4 ∧ 0 ≤ atOff (posBump exLazy 4) ∧ atOff (posBump exLazy 4) ≤ 9 :=
-  C19_at exLazy 4 (by decide) rfl
+example : atOff exLazy (posBump exLazy 4) = 4 ∧ 0 ≤ atOff exLazy (posBump exLazy 4) ∧ atOff exLazy (posBump exLazy 4) ≤ 9 :=
+  C19_at exLazy 4 (by decide)
+/-- initial byte counter 10 (as inside a `rematch` that starts at byte 10): the position reports byte 14, `at` is data offset 4 -/
+example : posBump { exLazy with init := ⟨10, 7, 1⟩ } 4 = ⟨14, 8, 2⟩ ∧ atOff { exLazy with init := ⟨10, 7, 1⟩ } (posBump { exLazy with init := ⟨10, 7, 1⟩ } 4) = 4 := by
+  decide
 
 /-! ### `begin_of_line` -/
 
 /-- What `begin_of_line( p )` computes for any initial counters: with `b` the true begin of
-    the line, `init.byte + b`, minus `init.column - 1` on the first line. -/
+    the line, `b`, minus `init.column - 1` on the first line. -/
 theorem C19_bol_general (cx : Ctx) (k : Nat) (hk : k ≤ cx.inp.size) :
     ∃ b, IsLineBegin cx.eol cx.inp k b ∧
-      beginOfLineOff (posBump cx k) =
-        (cx.init.pos : Int) + b - (if b = 0 then (cx.init.col : Int) - 1 else 0) :=
+      beginOfLineOff cx (posBump cx k) = (b : Int) - (if b = 0 then (cx.init.col : Int) - 1 else 0) :=
   bol_posBump cx k hk
 
-example : beginOfLineOff (posBump exEager 2) = -2 ∧ IsLineBegin exEager.eol exEager.inp 2 0 := by decide
+example : beginOfLineOff exEager (posBump exEager 2) = -2 ∧ IsLineBegin exEager.eol exEager.inp 2 0 := by decide
 
-/-- With initial byte 0 and (initial column 1, or a line-break byte before `k`),
+/-- With initial column 1, or a line-break byte before `k` (any initial byte and line counter),
     `begin_of_line( p )` is exactly the begin of the line containing `k`:
     directly after the last line-break byte before `k`, or the begin of the data. -/
-theorem C19_bol (cx : Ctx) (k : Nat) (hk : k ≤ cx.inp.size) (h0 : cx.init.pos = 0)
+theorem C19_bol (cx : Ctx) (k : Nat) (hk : k ≤ cx.inp.size)
     (hc : cx.init.col = 1 ∨ ∃ j, j < k ∧ isByte cx.inp j (lineBreak cx.eol) = true) :
-    ∃ b : Nat, beginOfLineOff (posBump cx k) = b ∧ IsLineBegin cx.eol cx.inp k b := by
+    ∃ b : Nat, beginOfLineOff cx (posBump cx k) = b ∧ IsLineBegin cx.eol cx.inp k b := by
   obtain ⟨b, hb, he⟩ := bol_posBump cx k hk
   refine ⟨b, ?_, hb⟩
-  rw [he, h0]
+  rw [he]
   by_cases hb0 : b = 0
   · rcases hc with hc | ⟨j, hj, hjb⟩
     · simp [hb0, hc]
     · have := hb.2.2 j hj (by omega); rw [hjb] at this; cases this
   · simp [hb0]
 
-example : ∃ b : Nat, beginOfLineOff (posBump exLazy 9) = b ∧ IsLineBegin .lfCrlf exLazy.inp 9 b :=
-  C19_bol exLazy 9 (by decide) rfl (Or.inl rfl)
-example : ∃ b : Nat, beginOfLineOff (posBump exEager 4) = b ∧ IsLineBegin .crlf exEager.inp 4 b :=
-  C19_bol exEager 4 (by decide) rfl (Or.inr ⟨2, by decide, by decide⟩)
-example : beginOfLineOff (posBump exLazy 9) = 7 ∧ beginOfLineOff (posBump exEager 4) = 3 := by decide
+example : ∃ b : Nat, beginOfLineOff exLazy (posBump exLazy 9) = b ∧ IsLineBegin .lfCrlf exLazy.inp 9 b :=
+  C19_bol exLazy 9 (by decide) (Or.inl rfl)
+example : ∃ b : Nat, beginOfLineOff exEager (posBump exEager 4) = b ∧ IsLineBegin .crlf exEager.inp 4 b :=
+  C19_bol exEager 4 (by decide) (Or.inr ⟨2, by decide, by decide⟩)
+example : beginOfLineOff exLazy (posBump exLazy 9) = 7 ∧ beginOfLineOff exEager (posBump exEager 4) = 3 := by decide
 
 /-! ### `end_of_line` -/
 
-/-- With initial byte 0, `end_of_line( p )` is defined (the sub-parse starts inside the
+/-- For any initial counters `end_of_line( p )` is defined (the sub-parse starts inside the
     data), it is the first index at or after `k` where `eolf` matches under the policy —
     an end-of-line sequence or the end of the data —, hence never beyond `end()`, and the
     sub-parse reads no byte outside the data. -/
-theorem C19_eol (cx : Ctx) (k : Nat) (hk : k ≤ cx.inp.size) (h0 : cx.init.pos = 0) :
+theorem C19_eol (cx : Ctx) (k : Nat) (hk : k ≤ cx.inp.size) :
     ∃ q : Nat, endOfLineOff cx (posBump cx k) = some (q : Int) ∧ IsLineEnd cx.eol cx.inp k q ∧
       (endOfLineRun cx (posBump cx k)).map (·.oob) = some false := by
-  obtain ⟨st, h1, h2, h3⟩ := eol_posBump cx k hk h0
+  obtain ⟨st, h1, h2, h3⟩ := eol_posBump cx k hk
   exact ⟨st.cur.pos, by simp [endOfLineOff, h1], h2, by simp [h1, h3]⟩
 
 example : ∃ q : Nat, endOfLineOff exLazy (posBump exLazy 4) = some (q : Int) ∧ IsLineEnd .lfCrlf exLazy.inp 4 q ∧
     (endOfLineRun exLazy (posBump exLazy 4)).map (·.oob) = some false :=
-  C19_eol exLazy 4 (by decide) rfl
+  C19_eol exLazy 4 (by decide)
 example : endOfLineOff exLazy (posBump exLazy 4) = some 5 ∧ endOfLineOff exLazy (posBump exLazy 9) = some 9 ∧
     endOfLineOff exEager (posBump exEager 0) = some 5 := by decide
 
 /-! ### `line_at` -/
 
-/-- With initial byte 0 and (initial column 1 or not on the first line), `line_at( p )` is the
+/-- With initial column 1 or not on the first line (any initial byte and line counter), `line_at( p )` is the
     view `[b, q)` with `b` the begin and `q` the end of the line containing `k`;
     `0 ≤ b ≤ k ≤ q ≤ size`, its size is not negative, and its bytes are exactly that line. -/
-theorem C19_line (cx : Ctx) (k : Nat) (hk : k ≤ cx.inp.size) (h0 : cx.init.pos = 0)
+theorem C19_line (cx : Ctx) (k : Nat) (hk : k ≤ cx.inp.size)
     (hc : cx.init.col = 1 ∨ ∃ j, j < k ∧ isByte cx.inp j (lineBreak cx.eol) = true) :
     ∃ b q : Nat, lineAtOff cx (posBump cx k) = some ((b : Int), (q : Int) - b) ∧
       IsLineBegin cx.eol cx.inp k b ∧ IsLineEnd cx.eol cx.inp k q ∧
       b ≤ k ∧ k ≤ q ∧ q ≤ cx.inp.size ∧
       IsLine cx.eol cx.inp k (viewBytes cx.inp ((b : Int), (q : Int) - b)) := by
-  obtain ⟨b, hb, hbl⟩ := C19_bol cx k hk h0 hc
-  obtain ⟨q, hq, hql, _⟩ := C19_eol cx k hk h0
+  obtain ⟨b, hb, hbl⟩ := C19_bol cx k hk hc
+  obtain ⟨q, hq, hql, _⟩ := C19_eol cx k hk
   refine ⟨b, q, by simp [lineAtOff, hq, hb], hbl, hql, hbl.1, hql.1, hql.2.1, b, q, hbl, hql, ?_⟩
   have : ((b : Int) + ((q : Int) - b)).toNat = q := by omega
   simp [viewBytes, this]
@@ -137,21 +132,23 @@ theorem C19_line (cx : Ctx) (k : Nat) (hk : k ≤ cx.inp.size) (h0 : cx.init.pos
 example : lineAtOff exLazy (posBump exLazy 4) = some (3, 2) ∧ viewBytes exLazy.inp (3, 2) = [99, 100] ∧
     IsLine .lfCrlf exLazy.inp 4 [99, 100] := by
   refine ⟨by decide, by decide, 3, 5, by decide, by decide, by decide⟩
-example := C19_line exEager 8 (by decide) rfl (Or.inr ⟨6, by decide, by decide⟩)
+example := C19_line exEager 8 (by decide) (Or.inr ⟨6, by decide, by decide⟩)
 
 /-- All four helpers stay inside the data: `0 ≤ begin_of_line ≤ at ≤ end_of_line ≤ size`. -/
-theorem C19_in_bounds (cx : Ctx) (k : Nat) (hk : k ≤ cx.inp.size) (h0 : cx.init.pos = 0)
+theorem C19_in_bounds (cx : Ctx) (k : Nat) (hk : k ≤ cx.inp.size)
     (hc : cx.init.col = 1 ∨ ∃ j, j < k ∧ isByte cx.inp j (lineBreak cx.eol) = true) :
     ∃ e : Int, endOfLineOff cx (posBump cx k) = some e ∧
-      0 ≤ beginOfLineOff (posBump cx k) ∧ beginOfLineOff (posBump cx k) ≤ atOff (posBump cx k) ∧
-      atOff (posBump cx k) ≤ e ∧ e ≤ cx.inp.size := by
-  obtain ⟨b, hb, hbl⟩ := C19_bol cx k hk h0 hc
-  obtain ⟨q, hq, hql, _⟩ := C19_eol cx k hk h0
-  have ha := (C19_at cx k hk h0).1
+      0 ≤ beginOfLineOff cx (posBump cx k) ∧ beginOfLineOff cx (posBump cx k) ≤ atOff cx (posBump cx k) ∧
+      atOff cx (posBump cx k) ≤ e ∧ e ≤ cx.inp.size := by
+  obtain ⟨b, hb, hbl⟩ := C19_bol cx k hk hc
+  obtain ⟨q, hq, hql, _⟩ := C19_eol cx k hk
+  have ha := (C19_at cx k hk).1
   have := hbl.1; have := hql.1; have := hql.2.1
   exact ⟨q, hq, by omega, by omega, by omega, by omega⟩
 
-example := C19_in_bounds exLazy 9 (by decide) rfl (Or.inl rfl)
+example := C19_in_bounds exLazy 9 (by decide) (Or.inl rfl)
+/-- the input of a `rematch` that begins at byte 10, line 3, column 1: everything inside the data -/
+example := C19_in_bounds { exLazy with init := ⟨10, 3, 1⟩ } 9 (by decide) (Or.inl rfl)
 
 /-! ### Positions obtained by parsing with `eol` -/
 
@@ -173,20 +170,12 @@ example : posTok exEager 6 = posBump exEager 7 ∧ posTok exEager 6 = ⟨7, 3, 1
 example := C19_tok_positions exEager 6 (Or.inl (by decide))
 example := C19_tok_positions { exLazy with eol := .crCrlf } 6 (Or.inr rfl)
 
-/-! ### The failures (known findings F10, F11) -/
+/-! ### The failures (known findings F10 — column part —, F11) -/
 
-/-- F10: an input of 5 bytes constructed with initial byte counter 10: after 4 bytes
-    `at( p )` is `begin() + 14`, nine bytes behind `end()`; `end_of_line` is then undefined. -/
-theorem C19_initial_counters_witness :
-    ∃ (cx : Ctx) (k : Nat), k ≤ cx.inp.size ∧
-      atOff (posBump cx k) > cx.inp.size ∧ endOfLineOff cx (posBump cx k) = none :=
-  ⟨{ g := #[], inp := #[97, 98, 10, 99, 100], eol := .lf, init := ⟨10, 1, 1⟩ }, 4, by decide, by decide, by decide⟩
-
-/-- F10, column: initial byte 0 but initial column 5: on the first line `begin_of_line( p )`
-    lies before `begin()`. -/
+/-- F10, column: initial column 5: on the first line `begin_of_line( p )` lies before `begin()`. -/
 theorem C19_initial_column_witness :
-    ∃ (cx : Ctx) (k : Nat), k ≤ cx.inp.size ∧ cx.init.pos = 0 ∧ beginOfLineOff (posBump cx k) < 0 :=
-  ⟨{ g := #[], inp := #[97, 98, 10, 99, 100], eol := .lf, init := ⟨0, 1, 5⟩ }, 1, by decide, rfl, by decide⟩
+    ∃ (cx : Ctx) (k : Nat), k ≤ cx.inp.size ∧ beginOfLineOff cx (posBump cx k) < 0 :=
+  ⟨{ g := #[], inp := #[97, 98, 10, 99, 100], eol := .lf, init := ⟨0, 1, 5⟩ }, 1, by decide, by decide⟩
 
 /-- F11: input CR LF 'b' under `cr_crlf`, one `eol` token consumed: the eager input reports
     column 1, so `begin_of_line` is 2; the lazy input reports column 2, so `begin_of_line`
@@ -195,7 +184,7 @@ theorem C19_initial_column_witness :
 theorem C19_crCrlf_eager_witness :
     let eager : Ctx := { g := #[], inp := #[13, 10, 98], eol := .crCrlf, lazy := false }
     let lazy : Ctx := { eager with lazy := true }
-    beginOfLineOff (posTok eager 1) = 2 ∧ beginOfLineOff (posTok lazy 1) = 1 ∧
+    beginOfLineOff eager (posTok eager 1) = 2 ∧ beginOfLineOff lazy (posTok lazy 1) = 1 ∧
       IsLineBegin .crCrlf eager.inp 2 1 := by
   decide
 
